@@ -4,7 +4,7 @@
    (field = association navigation, collect = composition, union / intersection / difference pointwise,
    subType = restriction of the result, variable = its definition for x's type, `*` = transitive closure,
    which lies within the bounds closure+ <= result <= closure* the property allows). *)
-From MT Require Import Prelude Lang Eval EvalThm Graph Gen GenThm GenCor.
+From MT Require Import Prelude Lang Eval EvalThm EvalTotal Graph Gen GenThm GenCor.
 From Coq Require Import Relations.
 
 (* the evaluator as coded, applied to a list of current targets, returns exactly the image of the denotation *)
@@ -41,6 +41,16 @@ Proof.
   exists info. auto.
 Qed.
 Print Assumptions C01_children_iff.
+
+(* termination: the loop that computes `*` returns within the fuel the evaluator gives it (number of assets + 2) on every
+   model, whatever its cycles and self-links, as soon as the body of the closure evaluates on every asset of the model
+   and stays inside the model — every round that finds a new asset enlarges the duplicate-free set of seen assets *)
+Theorem C01_closure_terminates : forall L M venvE e xs,
+  let U := map ia_id (im_assets M) in
+  (forall a, In a U -> exists r, ev1 L M venvE e [a] = EOk r /\ incl r U) -> incl xs U ->
+  exists out, ev1 L M venvE (STrans e) xs = EOk out.
+Proof. exact trans_terminates. Qed.
+Print Assumptions C01_closure_terminates.
 
 (* non-vacuity: the witnesses of the repaired defects F1a, F1b, F1c (self-link), F1d *)
 Definition stp (n : string) (es : list sexpr) : stepdecl := mkStep n "or" JNull [] (JDict []) None (Some (true, es)).
